@@ -436,14 +436,14 @@ impl SwarmDriver {
 
                             sender
                                 .send(Ok(new_accumulated_record))
-                                .map_err(|_| NetworkError::InternalMsgChannelDropped)?;
+                                .unwrap_or_else(|_| debug!("A get_record caller stopped waiting before its outcome was ready"));
                         }
                     } else {
                         for sender in senders {
                             let result_map = result_map.clone();
                             sender
                                 .send(Err(GetRecordError::SplitRecord { result_map }))
-                                .map_err(|_| NetworkError::InternalMsgChannelDropped)?;
+                                .unwrap_or_else(|_| debug!("A get_record caller stopped waiting before its outcome was ready"));
                         }
                     }
                 }
@@ -491,7 +491,7 @@ impl SwarmDriver {
                         .send(Err(GetRecordError::SplitRecord {
                             result_map: result_map.clone(),
                         }))
-                        .map_err(|_| NetworkError::InternalMsgChannelDropped)?;
+                        .unwrap_or_else(|_| debug!("A get_record caller stopped waiting before its outcome was ready"));
                 }
 
                 return Ok(());
@@ -503,7 +503,7 @@ impl SwarmDriver {
                 for sender in senders {
                     sender
                         .send(Err(GetRecordError::RecordNotFound))
-                        .map_err(|_| NetworkError::InternalMsgChannelDropped)?;
+                        .unwrap_or_else(|_| debug!("A get_record caller stopped waiting before its outcome was ready"));
                 }
                 return Ok(());
             }
@@ -529,7 +529,7 @@ impl SwarmDriver {
                 for sender in senders {
                     sender
                         .send(result.clone())
-                        .map_err(|_| NetworkError::InternalMsgChannelDropped)?;
+                        .unwrap_or_else(|_| debug!("A get_record caller stopped waiting before its outcome was ready"));
                 }
             }
         } else {
@@ -572,7 +572,7 @@ impl SwarmDriver {
                 for sender in senders {
                     sender
                         .send(Err(GetRecordError::RecordNotFound))
-                        .map_err(|_| NetworkError::InternalMsgChannelDropped)?;
+                        .unwrap_or_else(|_| debug!("A get_record caller stopped waiting before its outcome was ready"));
                 }
             }
             kad::GetRecordError::Timeout { key } => {
@@ -601,7 +601,7 @@ impl SwarmDriver {
                     for sender in senders {
                         sender
                             .send(Err(GetRecordError::QueryTimeout))
-                            .map_err(|_| NetworkError::InternalMsgChannelDropped)?;
+                            .unwrap_or_else(|_| debug!("A get_record caller stopped waiting before its outcome was ready"));
                     }
 
                     return Ok(());
@@ -620,7 +620,7 @@ impl SwarmDriver {
                     // Otherwise report the timeout
                     sender
                         .send(Err(GetRecordError::QueryTimeout))
-                        .map_err(|_| NetworkError::InternalMsgChannelDropped)?;
+                        .unwrap_or_else(|_| debug!("A get_record caller stopped waiting before its outcome was ready"));
                 }
             }
         }
@@ -647,7 +647,7 @@ impl SwarmDriver {
         for sender in senders {
             sender
                 .send(res.clone())
-                .map_err(|_| NetworkError::InternalMsgChannelDropped)?;
+                .unwrap_or_else(|_| debug!("A get_record caller stopped waiting before its outcome was ready"));
         }
 
         Ok(())
